@@ -134,6 +134,8 @@ def build_harness(timeout=600):
             open(gm, "w").write(new)
         rc, out = run(["go", "build", "-tags", "verif", "-o", os.path.join(BUILD, "hpverif"), "."],
                       timeout, cwd=HARNESS, env=GOENV)
+        if new != txt and REPO != "/repo":
+            open(gm, "w").write(txt)     # a run against a copy (VERIF_REPO) leaves the committed file as it was
         return rc == 0, out
 
 
